@@ -389,6 +389,33 @@ func runC15(c *Collector, r *Rng, thorough bool) {
 		b, desc := mutateBytes(r, t.Ser())
 		c15One(c, "byte-fault/"+desc, b)
 	}
+	// every curve id under both key types with well-sized material, with and without alg: complete keys that differ
+	// from a usable one only in the curve / algorithm pairing
+	for _, kty := range []int64{1, 2} {
+		for crv := int64(0); crv <= 8; crv++ {
+			for _, alg := range []*W{nil, wInt(-8, -1), wInt(-7, -1), wInt(-35, -1)} {
+				for _, withD := range []bool{false, true} {
+					size := 32
+					if kty == 2 && crv == 2 {
+						size = 48
+					} else if kty == 2 && crv == 3 {
+						size = 66
+					}
+					kv := []*W{wInt(1, -1), wInt(kty, -1), wInt(-1, -1), wInt(crv, -1), wInt(-2, -1), wBstr(bytes.Repeat([]byte{0x11}, size), -1)}
+					if kty == 2 {
+						kv = append(kv, wInt(-3, -1), wBstr(bytes.Repeat([]byte{0x22}, size), -1))
+					}
+					if withD {
+						kv = append(kv, wInt(-4, -1), wBstr(bytes.Repeat([]byte{0x33}, size), -1))
+					}
+					if alg != nil {
+						kv = append(kv, wInt(3, -1), alg)
+					}
+					c15One(c, "curve-pairing", wMap(-1, kv...).Ser())
+				}
+			}
+		}
+	}
 	// corpus of earlier findings
 	for _, hx := range []string{"a201022061", "a20102206161", "a3010220010480", "a401012006215820" + zeros(32) + "0480", "a1d9d9f7011863", "d8636161", "d863a10104",
 		"a30101200623" + "5840" + zeros(64), "a30101200623" + "50" + zeros(16), "a3010120062358" + "21" + zeros(33), "a401012006215840" + zeros(64) + "235820" + zeros(32)} {
